@@ -125,7 +125,13 @@ func runC14(ci interface{}) Result {
 			}
 		}
 	}
-	// every bar stopped
+	// every bar stopped: at once, as seen by a client that has just cancelled the
+	// context or returned from Shutdown...
+	if len(tr.RunningAfterCancel) > 0 {
+		r.Err, r.Kind = fmt.Errorf("bars %v still report IsRunning()=true right after the cancel / Shutdown call returned", tr.RunningAfterCancel), "running-after-cancel"
+		return r
+	}
+	// ...and after Wait
 	for _, g := range tr.Final {
 		if g.Running {
 			r.Err, r.Kind = fmt.Errorf("bar %d: IsRunning()=true after Wait", g.Bar), "running"
